@@ -42,6 +42,7 @@ pub enum VK {
     HLNormalizer(usize), Roc(usize), BinaryEntropy(usize), Rsi(usize), MyRSI(usize), CoG(usize), CTI(usize), NET(usize),
     PFE(usize, Box<VK>), EFT(usize, Box<VK>), LaguerreFilter(f64), LaguerreRSI(usize), SuperSmoother(usize), Roofing(usize, usize),
     CyberCycle(usize), TrendFlex(usize), ReFlex(usize),
+    AlmaCustom(usize, f64, f64), EmaAlpha(usize, f64),
 }
 impl VK {
     pub fn name(&self) -> String {
@@ -91,6 +92,8 @@ pub fn build<T: Dom>(k: &VK, inner: DynV<T>) -> DynV<T> {
         VK::CyberCycle(n) => DynV::new(CyberCycle::new(inner, *n)),
         VK::TrendFlex(n) => DynV::new(TrendFlex::new(inner, *n)),
         VK::ReFlex(n) => DynV::new(ReFlex::new(inner, *n)),
+        VK::AlmaCustom(n, sg, off) => DynV::new(Alma::new_custom(inner, *n, T::c(*sg), T::c(*off))),
+        VK::EmaAlpha(n, a) => DynV::new(Ema::with_alpha(inner, *n, T::c(*a))),
     }
 }
 /// every unary wrapper of the crate at window length n (secondary parameters fixed)
